@@ -21,6 +21,31 @@ mod chx {
         ensures sp_alnum(#[trigger] sp_lower(c)) == sp_alnum(c), sp_ws(sp_lower(c)) == sp_ws(c), sp_ctrl(sp_lower(c)) == sp_ctrl(c), sp_punct(sp_lower(c)) == sp_punct(c);
     pub broadcast axiom fn ax_sep_not_alnum(c: char) ensures is_sep(c) ==> !#[trigger] sp_alnum(c);
 }
+// ===== the ASCII-only predicates of std are DEFINED by code point (their documentation is the definition); their relation to the
+// Unicode predicates above is one-way (ASCII white space is white space, not conversely), checked by bin/charfacts
+pub open spec fn ascii_ws(c: char) -> bool { c == ' ' || c == '\t' || c == '\n' || c == '\x0C' || c == '\r' }
+pub open spec fn ascii_upper(c: char) -> bool { 'A' as u32 <= c as u32 <= 'Z' as u32 }
+pub open spec fn ascii_lower(c: char) -> bool { 'a' as u32 <= c as u32 <= 'z' as u32 }
+pub open spec fn ascii_digit(c: char) -> bool { '0' as u32 <= c as u32 <= '9' as u32 }
+pub open spec fn ascii_alpha(c: char) -> bool { ascii_upper(c) || ascii_lower(c) }
+pub open spec fn ascii_alnum(c: char) -> bool { ascii_alpha(c) || ascii_digit(c) }
+pub open spec fn ascii_ctrl(c: char) -> bool { c as u32 <= 0x1f || c as u32 == 0x7f }
+pub open spec fn ascii_punct(c: char) -> bool { 33 <= c as u32 <= 47 || 58 <= c as u32 <= 64 || 91 <= c as u32 <= 96 || 123 <= c as u32 <= 126 }
+mod chy {
+    use vstd::prelude::*;
+    use super::{sp_ws, sp_upper, sp_alpha, sp_alnum, sp_ctrl, ascii_ws, ascii_upper, ascii_alpha, ascii_alnum, ascii_ctrl};
+    pub broadcast axiom fn ax_ascii_sub(c: char)
+        ensures #![trigger sp_ws(c)] #![trigger sp_upper(c)] #![trigger sp_alpha(c)] #![trigger sp_alnum(c)] #![trigger sp_ctrl(c)]
+            ascii_ws(c) ==> sp_ws(c), ascii_upper(c) ==> sp_upper(c), ascii_alpha(c) ==> sp_alpha(c), ascii_alnum(c) ==> sp_alnum(c), ascii_ctrl(c) ==> sp_ctrl(c);
+}
+pub assume_specification[ char::is_ascii_whitespace ](c: &char) -> (r: bool) ensures r == ascii_ws(*c);
+pub assume_specification[ char::is_ascii_uppercase ](c: &char) -> (r: bool) ensures r == ascii_upper(*c);
+pub assume_specification[ char::is_ascii_lowercase ](c: &char) -> (r: bool) ensures r == ascii_lower(*c);
+pub assume_specification[ char::is_ascii_digit ](c: &char) -> (r: bool) ensures r == ascii_digit(*c);
+pub assume_specification[ char::is_ascii_alphabetic ](c: &char) -> (r: bool) ensures r == ascii_alpha(*c);
+pub assume_specification[ char::is_ascii_alphanumeric ](c: &char) -> (r: bool) ensures r == ascii_alnum(*c);
+pub assume_specification[ char::is_ascii_control ](c: &char) -> (r: bool) ensures r == ascii_ctrl(*c);
+pub assume_specification[ char::is_ascii_punctuation ](c: &char) -> (r: bool) ensures r == ascii_punct(*c);
 pub assume_specification[ char::is_alphanumeric ](c: char) -> (r: bool) ensures r == sp_alnum(c);
 pub assume_specification[ char::is_control ](c: char) -> (r: bool) ensures r == sp_ctrl(c);
 pub assume_specification[ char::is_alphabetic ](c: char) -> (r: bool) ensures r == sp_alpha(c);
